@@ -346,28 +346,34 @@ def body_detector(ctx, det, N, cfg, kind, overwrite_at, setref=True):
 COLS = ["a", "b", "c"]
 
 
-def _inj_call(name, ctx, data, f, t, container, extra):
+def _inj_make(name):
     from menelaus import injection as I
 
+    return {"FeatureShift": I.FeatureShiftInjector, "FeatureSwap": I.FeatureSwapInjector, "LabelSwap": I.LabelSwapInjector,
+            "LabelJoin": I.LabelJoinInjector, "LabelProbability": I.LabelProbabilityInjector,
+            "LabelDirichlet": I.LabelDirichletInjector, "Brownian": I.BrownianNoiseInjector}[name]()
+
+
+def _inj_call(inj, name, ctx, data, f, t, container, extra, tag=""):
     col = (lambda j: COLS[j]) if container == "df" else (lambda j: j)
     if name == "FeatureShift":
-        return I.FeatureShiftInjector()(data, f, t, col(0), ctx.real("shift_factor"), ctx.real("alpha"))
+        return inj(data, f, t, col(0), ctx.real("shift_factor" + tag), ctx.real("alpha" + tag))
     if name == "FeatureSwap":
-        return I.FeatureSwapInjector()(data, f, t, col(0), col(2))
+        return inj(data, f, t, col(0), col(2))
     if name == "LabelSwap":
-        return I.LabelSwapInjector()(data, f, t, col(2), 0, 1)
+        return inj(data, f, t, col(2), 0, 1)
     if name == "LabelJoin":
-        return I.LabelJoinInjector()(data, f, t, col(2), 0, 1, 7)
+        return inj(data, f, t, col(2), 0, 1, 7)
     if name == "LabelProbability":
-        return I.LabelProbabilityInjector()(data, f, t, col(2), extra["probs"])
+        return inj(data, f, t, col(2), extra["probs"])
     if name == "LabelDirichlet":
-        return I.LabelDirichletInjector()(data, f, t, col(2), extra["alpha"])
+        return inj(data, f, t, col(2), extra["alpha"])
     if name == "Brownian":
-        return I.BrownianNoiseInjector()(data, f, t, col(0), ctx.real("x0"))
+        return inj(data, f, t, col(0), ctx.real("x0" + tag))
     raise ValueError(name)
 
 
-def body_injector(ctx, name, n, container):
+def body_injector(ctx, name, n, container, reuse=False):
     from menelaus.injection import label_manipulation as LM, noise as NZ
 
     labels = [0, 1, 2, 0, 1][:n]
@@ -399,7 +405,16 @@ def body_injector(ctx, name, n, container):
 
     shim = stubs.NpShim(random=_Random(choice, dirichlet))
     with rebind(LM, np=shim), rebind(NZ, np=shim):
-        out = _inj_call(name, ctx, owner.obj, f, t, container, extra)
+        inj = _inj_make(name)
+        if reuse:
+            # the same injector object was used before on the *other* container kind (same width): nothing of that call
+            # may leak into this one - in particular not the container type of the result (seed C15-10)
+            other_kind = "c" if container == "df" else "df"
+            warm = Caller(ctx, other_kind, [[ctx.real(f"w{r}_0"), ctx.real(f"w{r}_1"), [0, 1, 2][r]] for r in range(3)], COLS)
+            wout = _inj_call(inj, name, ctx, warm.obj, 0, 3, other_kind, {k: dict(v) for k, v in extra.items()}, tag="_warm")
+            ctx.prove(type(wout) is type(warm.obj), "result-has-the-input-container-type")
+            ctx.witness("reused-instance")
+        out = _inj_call(inj, name, ctx, owner.obj, f, t, container, extra)
     ctx.prove(type(out) is type(owner.obj), "result-has-the-input-container-type")
     ctx.prove(out is not owner.obj, "result-is-a-new-object")
     ctx.prove(owner.unchanged(), "input-cells-unchanged")
@@ -480,4 +495,8 @@ def jobs(tier):
             out.append(Job(f"inj-{name}-{container}", "checks.c15:body_injector",
                            {"name": name, "n": 3 if q else 4, "container": container}, expect=("empty", "non-empty"),
                            opts={"validate": 1}))
+        for container in ("c", "df"):
+            out.append(Job(f"inj-{name}-{container}-reused-instance", "checks.c15:body_injector",
+                           {"name": name, "n": 3, "container": container, "reuse": True},
+                           expect=("empty", "non-empty", "reused-instance"), opts={"validate": 1}))
     return out
